@@ -115,6 +115,20 @@ def sim_obligations(chi_sym, make_model, label):
                 ok = getattr(s_arr, 'shape', None) == (len(times), len(want_log), len(want_req))
                 res.append(('sens.shape', ok, '%s: sensitivities shape %s' % (tag, getattr(s_arr, 'shape', None))))
                 mm.enable_sensitivities(False)
+    # the same outputs re-selected in another order while sensitivities are enabled: outputs and sensitivities stay aligned
+    st_q = sorted(v.qname() for v in model.states())
+    if len(st_q) >= 2:
+        mm = make_model()
+        mm.set_outputs(st_q)
+        mm.enable_sensitivities(True)
+        mm.set_outputs(list(reversed(st_q)))
+        paths = explore(lambda: mm.simulate(x, times), [])
+        if [r[0] for _, r, _ in paths] != ['ret']:
+            res.append(('simulate.runs', False, 'simulate raises %r after re-selecting the outputs in another order' % (paths[0][1][1],)))
+        elif mm.has_sensitivities():
+            req = mm._simulator.sensitivities
+            ok = req is not None and list(req[0]) == list(mm._output_names)
+            res.append(('order.sens', ok, 'outputs re-selected as %s with sensitivities enabled: the solver computes the sensitivities of %s' % (list(mm._output_names), None if req is None else list(req[0]))))
     return res
 
 
